@@ -32,7 +32,7 @@ from icalendar.prop import (vText, vInt, vFloat, vBoolean, vBinary, vUri, vCalAd
 from icalendar.parser import Parameters, Contentline
 
 BERLIN = ZoneInfo("Europe/Berlin")
-CLASSES = {"VEVENT": Event, "VCALENDAR": Calendar, "VTIMEZONE": Timezone, "VTODO": Todo, "X-COMP": None, "VJOURNAL": Journal}
+CLASSES = {"VEVENT": Event, "VCALENDAR": Calendar, "VTIMEZONE": Timezone, "VTODO": Todo, "X-COMP": None, "VJOURNAL": Journal, "VFREEBUSY": FreeBusy}
 POOLS = {
     "VEVENT": ("summary", "DTSTART", "uid", "x-b", "X-A", "attendee", "Rrule"),
     "VCALENDAR": ("version", "PRODID", "x-wr-calname", "method", "X-A", "calscale", "Name"),
@@ -41,6 +41,9 @@ POOLS = {
     "X-COMP": ("b", "A", "x-c", "summary", "DTSTART", "uid", "Z"),
     # names that tie under plausible "smarter" sort keys (numeric-aware, separator-insensitive, prefix-based)
     "VJOURNAL": ("X-R-1", "X-R-01", "X-R-10", "X-R-2", "X-R-001", "X-R_1", "X-R-1A"),
+    # distinct names that are equal under str.casefold / compatibility folding (Kelvin sign, capital sharp s, Ohm sign):
+    # a "caseless" sort key ties them and leaves insertion order
+    "VFREEBUSY": ("X-TEMP-K", "X-TEMP-\u212a", "X-STRASSE", "X-STRA\u1e9eE", "X-R-\u03a9", "X-R-\u2126", "X-FOO_BAR"),
 }
 
 
